@@ -6,6 +6,7 @@ import (
 	"bufio"
 	"bytes"
 	"encoding/hex"
+	"encoding/json"
 	"fmt"
 	"os"
 	"os/exec"
@@ -47,4 +48,7 @@ func hx(b []byte) string { return hex.EncodeToString(b) }
 func init() {
 	registerFrames()
 	registerCancel()
+	registerIsolation()
 }
+
+func jsonUnmarshal(s string, v any) error { return json.Unmarshal([]byte(s), v) }
